@@ -211,6 +211,7 @@ JP runC17(uint64_t runSeed, int64_t runIdx, const TierCfg &cfg) {
     for (int i = 0; i < 2 && !stop; i++) {
         Case c = base;
         c.knobs = i == 0 ? knobs : HeapKnobs::draw(rng);
+        if (i == 1) c.knobs.smallStack = 1;
         c.fillSeed = rng.u64();
         step(c);
     }
@@ -289,6 +290,17 @@ JP runC17(uint64_t runSeed, int64_t runIdx, const TierCfg &cfg) {
             }
             step(c);
         }
+    }
+    // 5. the retry: after all those refused requests the same call once more, fault-free, on the same thread.
+    // Whatever a failed call left behind outside the heap (a per-thread cache filled half-way, a stale key) meets
+    // its first reader here; "when no allocation fails ... results are identical to the default allocator's".
+    for (int variant = 0; variant < 2 && n > 0 && !stop; variant++) {
+        Case c = base;
+        c.knobs = HeapKnobs::draw(rng);
+        c.fillSeed = rng.u64();
+        c.retryAfter.kind = variant == 0 ? F2_FROM_NTH : F1_NTH;
+        c.retryAfter.n = variant == 0 ? 1 : n;
+        step(c);
     }
     line->set("enumerated", enumN);
     line->setb("exhaustive_single_faults", exhaustive);
